@@ -81,7 +81,7 @@ def needed_of(files, out):
 
 def run(ctx):
     r = ctx.rng
-    n = 50 if ctx.quick else 1000
+    n = 50 if ctx.quick else 350
     reqs, impl, inputs = [], [], []
     for i in range(n):
         files = gen(r)
